@@ -85,7 +85,8 @@ deriving DecidableEq, Repr
 
 /-- Level of a key-value namespace in the hierarchy. Entity stores first (a command of an
 aggregate holds its scope lock while its listeners and the signer are called), then the
-published-object store, the task queue, the signer stores. -/
+published-object store, the task queue, the signer stores.  The repository update lock is
+the outermost: the writer re-reads the content (a `pubd_objects` scope lock) while holding it. -/
 def nsLevel : Ns → Nat
   | .cas | .taProxy | .taSigner | .pubd | .pubdObjects | .status | .properties => 1
   | .caObjects => 2
@@ -96,7 +97,7 @@ def nsLevel : Ns → Nat
 def rank : Lock → Nat
   | .root ns => nsLevel ns * 10
   | .scope ns => nsLevel ns * 10 + 5
-  | .pubdUpdate => 60
+  | .pubdUpdate => 5
   | .rsync => 70
 
 /-- An observed `held → wanted` edge respects the ranking. -/
